@@ -35,6 +35,8 @@ func VerifH3SConsts() [][2]any {
 		{"h3ErrCodeIDError", int64(ErrCodeIDError)},
 		{"h3ErrCodeMissingSettings", int64(ErrCodeMissingSettings)},
 		{"h3ErrCodeSettingsError", int64(ErrCodeSettingsError)},
+		{"h3ErrCodeRequestIncomplete", int64(ErrCodeRequestIncomplete)},
+		{"h3ErrCodeExcessiveLoad", int64(ErrCodeExcessiveLoad)},
 		{"h3StreamTypeControl", int64(streamTypeControlStream)},
 		{"h3StreamTypePush", int64(streamTypePushStream)},
 		{"h3StreamTypeQPACKEncoder", int64(streamTypeQPACKEncoderStream)},
